@@ -127,6 +127,37 @@ pub fn spaces(tier: Tier) -> Vec<Space<'static>> {
             }
         }));
     }
+    // numbers written in every spelling of the C02 list as TEXT operands, against each other and
+    // against the encoded value: compare must order them by the value the text denotes
+    {
+        let sp_all = crate::checks::c02::number_spellings();
+        let items: Arc<Vec<(String, RVal, Vec<u8>)>> = Arc::new(
+            sp_all
+                .into_iter()
+                .filter_map(|s| match refmodel::text::relaxed_json(s.as_bytes()) {
+                    Ok(p) if !p.value_unspecified && p.val.all_finite() && matches!(p.val, RVal::Num(_)) => { let b = enc(&p.val); Some((s, p.val, b)) }
+                    _ => None,
+                })
+                .collect(),
+        );
+        let m = items.len();
+        sp.push(Space::new("number spellings as text operands (text,text / text,binary / binary,text; bare and in an array)", m as u64, move |i, acc| {
+            let (si, vi, bi) = &items[i as usize];
+            for (sj, vj, bj) in items.iter() {
+                let exp = ref_cmp(vi, vj);
+                let (ai, aj) = (format!("[{}]", si), format!("[{}]", sj));
+                let (abi, abj) = (enc(&RVal::Arr(vec![vi.clone()])), enc(&RVal::Arr(vec![vj.clone()])));
+                for (cfg, a, b) in [("text,text", si.as_bytes(), sj.as_bytes()), ("text,bin", si.as_bytes(), &bj[..]), ("bin,text", &bi[..], sj.as_bytes()), ("[text],[text]", ai.as_bytes(), aj.as_bytes()), ("[text],[bin]", ai.as_bytes(), &abj[..]), ("[bin],[text]", &abi[..], aj.as_bytes())] {
+                    acc.eval();
+                    acc.nontrivial += 1;
+                    match guard(|| jsonb::compare(a, b)) {
+                        Ok(Ok(o)) if o == exp => {}
+                        other => acc.vio("compare-number-spellings:differs-from-the-order-of-the-denoted-values", || json!({"cfg": cfg, "a": si, "b": sj, "expected": format!("{:?}", exp), "observed": format!("{:?}", other.map_err(|p| panic_class(&p)))})),
+                    }
+                }
+            }
+        }));
+    }
     // text / binary configurations on a subset
     let sub: Vec<usize> = (0..n).filter(|i| d.texts[*i].is_some()).step_by((n / if tier.thorough() { 900 } else { 400 }).max(1)).collect();
     let m = sub.len();
